@@ -264,7 +264,10 @@ HookOk(h) ==
   /\ h.bad = 0                                             \* the hook saw no NaN / inf / value outside i32 at the cast, no index >= length
   /\ (h.site # "exp2_cast" /\ h.n > 0) => h.max < h.len    \* re-derived here from the logged extrema
 YuvStage(e) == e.stage \in {"enc", "LinToYuv", "XybToYuv"}
-VTotalC07(e) == FirstBad("C07.unsafe-site", {k \in 1..Len(e.hooks) : ~HookOk(e.hooks[k])})
+\* a child process that dies of a signal while converting (std's unsafe-precondition checks abort in the checked
+\* profile; SIGSEGV / SIGBUS anywhere) is the runtime's own observation of undefined behaviour
+VTotalC07(e) == IF e.res = "abort" THEN <<"C07.process-aborted", e.status>>
+                ELSE FirstBad("C07.unsafe-site", {k \in 1..Len(e.hooks) : ~HookOk(e.hooks[k])})
 VTotalC13(e) ==
   IF e.res \in {"panic", "abort"} THEN <<"C13.total", e.res>>
   ELSE IF e.stage = "batch" THEN <<"C13.total", e.res>>
